@@ -40,7 +40,13 @@ impl<T: Read + Write> Write for SwitchableConn<T> {
     fn flush(&mut self) -> io::Result<()> {
         match &mut self.0.as_mut().unwrap() {
             EitherConn::Plain(p) => p.flush(),
-            EitherConn::Tls(t) => t.flush(),
+            EitherConn::Tls(t) => {
+                t.flush()?;
+                // rustls does not touch the transport when it has nothing left to send, so ask
+                // the transport itself: this is where an error that rustls ignored while
+                // writing (see `PrependedReader`) is reported
+                t.sock.flush()
+            }
         }
     }
 }
@@ -74,13 +80,27 @@ impl<T: Read + Write> SwitchableConn<T> {
 
 pub(crate) struct PrependedReader<RW: Read + Write> {
     inner: Chain<Cursor<Vec<u8>>, RW>,
+    // rustls' stream ignores errors from the transport while it writes out buffered records
+    // ("callers will learn of permanent errors on the next call"), so make write-side errors
+    // permanent: once the transport has failed, every later write or flush fails too.
+    write_failed: Option<io::ErrorKind>,
 }
 
 impl<RW: Read + Write> PrependedReader<RW> {
     fn new(prepended: &[u8], rw: RW) -> PrependedReader<RW> {
         PrependedReader {
             inner: Cursor::new(prepended.to_vec()).chain(rw),
+            write_failed: None,
         }
+    }
+
+    fn latch<T>(&mut self, res: io::Result<T>) -> io::Result<T> {
+        if let Err(ref e) = res {
+            if e.kind() != io::ErrorKind::Interrupted && e.kind() != io::ErrorKind::WouldBlock {
+                self.write_failed = Some(e.kind());
+            }
+        }
+        res
     }
 }
 
@@ -92,11 +112,19 @@ impl<RW: Read + Write> Read for PrependedReader<RW> {
 
 impl<RW: Read + Write> Write for PrependedReader<RW> {
     fn write(&mut self, buf: &[u8]) -> io::Result<usize> {
-        self.inner.get_mut().1.write(buf)
+        if let Some(kind) = self.write_failed {
+            return Err(kind.into());
+        }
+        let res = self.inner.get_mut().1.write(buf);
+        self.latch(res)
     }
 
     fn flush(&mut self) -> io::Result<()> {
-        self.inner.get_mut().1.flush()
+        if let Some(kind) = self.write_failed {
+            return Err(kind.into());
+        }
+        let res = self.inner.get_mut().1.flush();
+        self.latch(res)
     }
 }
 
